@@ -62,13 +62,13 @@ def showCvt : Cvt DV → String
   | .none => "N"
   | .one v => "1 " ++ v
   | .many vs => " ".intercalate ("L" :: vs)
-  | .remoteError t => "SE " ++ charsToHex t
+  | .remoteError _ => "SE"
   | .pyError => "PYERR"
 
 def showOutcome : Outcome DV Nat → String
   | .value c => showCvt c
   | .remoteError n m vs => " ".intercalate ("RE" :: charsToHex n :: charsToHex m :: vs)
-  | .timeOut t => "TO " ++ charsToHex t
+  | .timeOut _ => "TO"
   | .lost r => "LOST " ++ toString r
   | .constructFailed => "EXC"
 
